@@ -373,6 +373,21 @@ func runC03(r *ev.Run) {
 					r.Count("ops:flush-twice-in-a-row", 1)
 				}
 			default:
+				if rng.IntN(4) == 0 && len(m.live) > 0 {
+					// EVERY document is removed and the removals are flushed in one go: the index is empty again
+					// (statistics included), whatever is added afterwards starts from zero
+					for _, id := range m.liveIDs() {
+						idx.Remove(id)
+						m.remove(id)
+					}
+					idx.Flush()
+					m.flush()
+					hist = append(hist, textOp{"remove-everything+flush", 0, ""})
+					removes++
+					flushes++
+					r.Count("ops:remove-everything-then-flush", 1)
+					break
+				}
 				id := ids.absent()
 				hist = append(hist, textOp{"remove-absent", id, ""})
 				idx.Remove(id) // BM25 Remove never reports; it must simply change nothing
